@@ -92,7 +92,30 @@ def make_extras(rng, spec, regs, n):
         mid = f"k{i}"
         spec["methods"][mid] = {"params": params, "prio": 0, "body": ["leaf"]}
         out.append(mid)
+    # n0: KX-annotated clone of a method *without* its keyword-only parameters. A keyword that not
+    # every method declares is no longer demanded by the entry point, so calls omitting it change
+    # from a call-shape TypeError to 'No method' (documented); configurations with this extra
+    # compare the two kinds of rejection as equal (see rejected()).
+    with_kw = [r[0] for r in regs if any(p[1] == "kw" for p in spec["methods"][r[0]]["params"])]
+    if with_kw:
+        src = spec["methods"][rng.choice(with_kw)]
+        params = [p for p in json.loads(json.dumps(src["params"])) if p[1] != "kw"]
+        params[0][2] = ["c", "KX"]
+        spec["methods"]["n0"] = {"params": params, "prio": 0, "body": ["leaf"]}
+        out.append("n0")
     return out
+
+
+def rejected(o):
+    if o[0] == "err" and not o[1] and o[2][0] in ("shape", "nomethod"):
+        return ["err", [], ["rejected"]]
+    return o
+
+
+def comparable(vec, cfg):
+    if cfg and any(m.startswith("n") for m in (cfg.get("extras") or [])):
+        return [rejected(o) for o in vec]
+    return vec
 
 
 def seeded_family(seed, index):
@@ -162,6 +185,7 @@ def execute(scen):
         return execute_env(scen)
     ref, _, _ = outcome_vector(fam, None)
     vec, applied, eff = outcome_vector(fam, cfg)
+    ref, vec = comparable(ref, cfg), comparable(vec, cfg)
     violation = None
     if vec != ref:
         i = next(i for i, (a, b) in enumerate(zip(vec, ref)) if a != b)
@@ -278,7 +302,7 @@ def run_job(job):
                 for s, v, p in applied[:30]:
                     stats["site_states"].append(f"{s}:{len(p)}")
             dig = (dig * 1000003 + stable_hash([vec, applied])) & ((1 << 61) - 1)
-            if vec != ref:
+            if comparable(vec, cfg) != comparable(ref, cfg):
                 nviol += 1
                 c2 = dict(cfg)
                 if cfg.get("order"):
